@@ -1,5 +1,5 @@
 (* Chk_C19.v — case type and checker for C19 (threads left behind). *)
-From ZT Require Import Base Threads.
+From ZT Require Import Base Threads ThreadsOnce.
 
 Record case := {
   init : list thr;                       (* threads alive before the first test (the main thread, …) *)
@@ -15,6 +15,6 @@ Definition check (c : case) : nat :=
   let fresh := idents_fresh (init c) (hist c) in
   bit (negb (rep_eqb (reports (trun (init c) (hist c))) (r_reports c))) 1
   + bit (negb (rep_eqb (s_reports (srun (init c) (hist c))) (r_reports c))) 2
-  + bit (negb fresh) 4
+  + bit (negb fresh || negb (bracketed false (hist c))) 4       (* outside the hypotheses of C19_exact / the counting theorems *)
   + bit (negb fresh && negb (rep_eqb (s_reports (srun (init c) (hist c))) (r_reports c))
          && rep_eqb (reports (trun (init c) (hist c))) (r_reports c)) 8.
